@@ -40,6 +40,7 @@ import (
 	experimentalsys "github.com/tetratelabs/wazero/experimental/sys"
 	expsysfs "github.com/tetratelabs/wazero/experimental/sysfs"
 	"github.com/tetratelabs/wazero/internal/wasm"
+	"github.com/tetratelabs/wazero/sys"
 	"github.com/tetratelabs/wazero/verifharness/hx"
 	"github.com/tetratelabs/wazero/verifharness/wb"
 )
@@ -71,6 +72,9 @@ type Op struct {
 	Pre   string `json:"pre,omitempty"` // none bin host
 	Funcs bool   `json:"funcs,omitempty"`
 	Code  uint32 `json:"code,omitempty"`
+	// Fail: kind of a "instfail" op: an instantiation under Name that fails in a late stage (start-trap, start-exit,
+	// start-hosterr, data-oob, missing-import).  For the registry it must be as if it never happened.
+	Fail string `json:"fail,omitempty"`
 }
 
 func (o Op) Token() string {
@@ -93,6 +97,8 @@ func (o Op) Token() string {
 		return fmt.Sprintf("rtclose,%d", o.Code)
 	case "isclosed":
 		return fmt.Sprintf("isclosed,%d", o.H)
+	case "instfail":
+		return fmt.Sprintf("instfail,%d,%s", o.Name, o.Fail)
 	}
 	hx.Fatal("bad op kind %q", o.Kind)
 	return ""
@@ -150,8 +156,60 @@ func newWorld(engine string) *world {
 		hx.Fatal("setup compile: %v", err)
 	}
 	w.compiled = c
+	// host functions for start functions that fail: exit = panic(sys.NewExitError(n)) WITHOUT closing the calling
+	// module (the way an ExitError reaches a start function from a library module's proc_exit), herr = panic(error)
+	one := []api.ValueType{api.ValueTypeI32}
+	if _, err := w.rt.NewHostModuleBuilder("hc10env").
+		NewFunctionBuilder().WithGoFunction(api.GoFunc(func(_ context.Context, st []uint64) { panic(sys.NewExitError(uint32(st[0]))) }), one, nil).Export("exit").
+		NewFunctionBuilder().WithGoFunction(api.GoFunc(func(_ context.Context, st []uint64) { panic(fmt.Errorf("host error %d", st[0])) }), one, nil).Export("herr").
+		Instantiate(ctx); err != nil {
+		hx.Fatal("setup host module: %v", err)
+	}
 	return w
 }
+
+// failingBinary: a module whose instantiation fails in the given stage.
+func failingBinary(kind string) []byte {
+	m := wb.New()
+	exit := m.ImportFunc("hc10env", "exit", []byte{wb.I32}, nil)
+	herr := m.ImportFunc("hc10env", "herr", []byte{wb.I32}, nil)
+	if kind == "missing-import" {
+		m.ImportFunc("hc10env", "no-such-function", nil, nil)
+	}
+	one := uint32(1)
+	m.Memory(1, &one, false, "memory")
+	var start []byte
+	switch kind {
+	case "start-trap":
+		start = wb.Op(wasm.OpcodeUnreachable)
+	case "start-exit":
+		start = wb.Cat(wb.I32Const(int32(3+saltCounter.Add(1)%5)), wb.Call(exit))
+	case "start-hosterr":
+		start = wb.Cat(wb.I32Const(9), wb.Call(herr))
+	case "data-oob":
+		m.Data(false, 65535, []byte{1, 2, 3})
+	}
+	switch strings.TrimPrefix(kind, "_") {
+	case "start-trap":
+		start = wb.Op(wasm.OpcodeUnreachable)
+	case "start-exit":
+		start = wb.Cat(wb.I32Const(int32(3+saltCounter.Add(1)%5)), wb.Call(exit))
+	case "start-hosterr":
+		start = wb.Cat(wb.I32Const(9), wb.Call(herr))
+	}
+	if start != nil && strings.HasPrefix(kind, "_") {
+		// the start function of the module CONFIGURATION (exported _start, run by InstantiateModule after the store
+		// has registered the instance) rather than the wasm start section
+		m.AddFunc(wb.Func{Body: start, Export: "_start"})
+	} else if start != nil {
+		idx := m.AddFunc(wb.Func{Body: start})
+		m.M.StartSection = &idx
+	}
+	m.AddFunc(wb.Func{Results: []byte{wb.I32}, Export: "salt", Body: wb.I32Const(saltCounter.Add(1))})
+	return m.Bytes()
+}
+
+var failKinds = []string{"start-trap", "start-exit", "start-hosterr", "data-oob", "missing-import", "_start-trap", "_start-exit", "_start-hosterr"}
 
 type countingMem struct {
 	w   *world
@@ -215,15 +273,19 @@ func classifyErr(err error) string {
 }
 
 // badFS: a file system whose (only) directory handle fails to close
-type badFS struct{ experimentalsys.UnimplementedFS }
+type badFS struct {
+	experimentalsys.UnimplementedFS
+}
 
-type badDir struct{ experimentalsys.UnimplementedFile }
+type badDir struct {
+	experimentalsys.UnimplementedFile
+}
 
 func (badFS) OpenFile(string, experimentalsys.Oflag, fs.FileMode) (experimentalsys.File, experimentalsys.Errno) {
 	return badDir{}, 0
 }
 func (badDir) IsDir() (bool, experimentalsys.Errno) { return true, 0 }
-func (badDir) Close() experimentalsys.Errno           { return experimentalsys.EIO }
+func (badDir) Close() experimentalsys.Errno         { return experimentalsys.EIO }
 
 // raw result of a lookup before pointers are resolved to handles
 type rawRes struct {
@@ -295,6 +357,28 @@ func (w *world) do(o Op) (res rawRes) {
 			w.mu.Unlock()
 		}
 		return rawRes{s: classifyErr(err)}
+	case "instfail":
+		before := w.rt.Module(nameStr(o.Name))
+		m, err := w.rt.InstantiateWithConfig(ctx, failingBinary(o.Fail), wazero.NewModuleConfig().WithName(nameStr(o.Name)))
+		if err == nil {
+			if m != nil {
+				m.Close(ctx)
+			}
+			return rawRes{s: "other:failing-module-instantiated:" + o.Fail}
+		}
+		if m != nil && !m.IsClosed() {
+			// (a failing _start hands back the instance together with the error: it must be a closed one)
+			return rawRes{s: "registry-changed:an-OPEN-module-returned-together-with-the-error"}
+		}
+		after := w.rt.Module(nameStr(o.Name))
+		switch {
+		case after == before:
+			return rawRes{s: "failed"}
+		case before == nil:
+			return rawRes{s: fmt.Sprintf("registry-changed:a-failed-instantiation-left-%q-registered(closed=%v)", nameStr(o.Name), after.IsClosed())}
+		default:
+			return rawRes{s: "registry-changed:another-owner"}
+		}
 	case "look":
 		m := w.rt.Module(nameStr(o.Name))
 		if m == nil {
@@ -385,7 +469,7 @@ func genSeq(r *rand.Rand, n int) []Op {
 	for len(ops) < n {
 		x := r.Intn(100)
 		switch {
-		case x < 34:
+		case x < 32:
 			pre := "none"
 			if y := r.Intn(10); y >= 8 {
 				pre = "host"
@@ -400,6 +484,8 @@ func genSeq(r *rand.Rand, n int) []Op {
 			}
 			ops = append(ops, Op{Kind: "inst", H: nextH, Name: name, Pre: pre})
 			nextH++
+		case x < 38:
+			ops = append(ops, Op{Kind: "instfail", Name: r.Intn(4), Fail: failKinds[r.Intn(len(failKinds))]})
 		case x < 52:
 			ops = append(ops, Op{Kind: "look", Name: r.Intn(4)})
 		case x < 76:
@@ -503,6 +589,19 @@ func runSeq(engine string, ops []Op, cfg Cfg, o *hx.Oracle) {
 			insts = append(insts, op.H)
 		}
 		concrete = append(concrete, op)
+		if op.Kind == "instfail" {
+			// no model step: for the registry a failed instantiation never happened (the next operations show it)
+			got := w.do(op).s
+			trace = append(trace, fmt.Sprintf("%s=>%s", op.Token(), got))
+			rep.Count("seq-op:instfail:" + op.Fail + ":" + strings.SplitN(got, ":", 2)[0])
+			if got != "failed" && !strings.Contains(got, "closed") {
+				rep.Violate(hx.Violation{Kind: "impl-violation", Signature: "C10:failed-instantiation-changes-registry:" + op.Fail,
+					What:  fmt.Sprintf("sequential run on %s: an instantiation that fails (%s) under name %q: %s", engine, op.Fail, nameStr(op.Name), got),
+					Input: seqCase{engine, concrete}, Expected: "failed, registry unchanged", Actual: got})
+				break
+			}
+			continue
+		}
 		real := w.resolve(w.do(op))
 		ans := strings.Fields(o.Askf("c10 op %d %s", sid, op.Token()))
 		if len(ans) != 2 {
